@@ -103,7 +103,17 @@ def run(ctx):
     if conc and st.get("conc_requests_overlapping_an_update", 0) == 0 and not ctx.violations:
         raise vlib.Broken("concurrent harness degenerate: no request overlapped an update: %r" % st)
 
+    def spam_queue():
+        # the announcer built as New() with a small queue and the real spamLoop: responders must keep answering
+        recs, okrun, log = ctx.go_harness(PKG, FILES, "TestVerifSpamQueue$", seed=ctx.seed, tag="q", timeout=300)
+        for r in recs:
+            if r.get("t") == "fail" and r.get("sig", "").startswith("l2-"):
+                ctx.oracle_fail(r["sig"], r.get("what", ""), r.get("replay"))
+
     def search():
+        spam_queue()
+        if ctx.violations:
+            return
         for k in range(4):
             sequential(400, ctx.seed * 1000 + 7 + k, "s%d" % k)
             if ctx.violations:
